@@ -404,6 +404,22 @@ theorem query_eq_slot {s : State} (hw : StoreWF s) (a : Bytes) (hp : s.port = so
 
 /-! ## the monitors evaluated on the implementation are what is proved of the model -/
 
+theorem agreeWhere_self (wf : Bytes → Bool) (src w : List Bytes) (hl : w.length = src.length) : agreeWhere wf src w w = true := by
+  induction src generalizing w with
+  | nil => cases w with
+    | nil => rfl
+    | cons _ _ => simp at hl
+  | cons x xs ih => cases w with
+    | nil => simp at hl
+    | cons y ys =>
+      simp only [List.length_cons, Nat.add_right_cancel_iff] at hl
+      simp [agreeWhere, ih ys hl]
+
+/-- the exact model image of a submission is a faithful record of it -/
+theorem faithful_self (src : Metadata) (p : Proposal) (h1 : p.targets.length = src.account.length)
+    (h2 : p.calldatas.length = src.calldatas.length) : faithful src p (some p) = true := by
+  simp [faithful, agreeWhere_self _ _ _ h1, agreeWhere_self _ _ _ h2]
+
 /-- every monitor of `Spec/Govshuttle.lean` holds on every accepted transition of the model -/
 theorem monitors_hold_ok {env : Env} {s s' : State} {op : Op} {u : Unit} (hw : StoreWF s)
     (h : step env s op = .ok (s', u)) (ids : List Nat) :
@@ -420,15 +436,17 @@ theorem monitors_hold_ok {env : Env} {s s' : State} {op : Op} {u : Unit} (hw : S
     cases op with
     | lm m f =>
       obtain ⟨md, hmd, hq⟩ := stored_faithfully h
-      simp only [storedFaithfully, expected, hmd, Option.map_some, Bool.not_true, Bool.false_or]
-      simp only [content, effId, hq, beq_self_eq_true]
+      simp only [storedFaithfully, hmd, Bool.not_true, Bool.false_or]
+      simp only [effId, hq]
+      exact faithful_self md _ (List.length_map _) (List.length_map _)
     | _ => rfl
   · -- treasury_fields
     cases op with
     | treasury m f =>
       obtain ⟨md, hmd, _, hq⟩ := treasury_field_placement h
       simp only [treasuryFields, hmd, Bool.not_true, Bool.false_or]
-      simp only [effId, hq, beq_self_eq_true]
+      simp only [effId, hq]
+      exact faithful_self (fromTreasury md) _ rfl rfl
     | _ => rfl
   · -- others_retrievable
     simp only [othersRetrievable, Bool.not_true, Bool.false_or, List.all_eq_true, Bool.or_eq_true]
